@@ -29,7 +29,9 @@ LEVEL_NOTE = (
     "is differential between two histories of the real code (order A vs order B; full vs accepted-only history)."
 )
 RULE = (
-    "case = container kind (instantaneous action, durative action with 2 timings, problem with 2 timed-effect timings) x "
+    "case = container kind (instantaneous action, durative action with timings start / end / start+1 / end-1 whose time argument is "
+    "spelled per effect as Timing, bare Timepoint, freshly built Timing with Fraction delay or StartTiming()/EndTiming() arithmetic - "
+    "spellings are mixed within one collection -, problem with 2 timed-effect timings) x "
     "generated collection of 2-5 operations over 2 hot fluents drawn from int/real/object/Boolean/parameterised fluents: "
     "assign constant / assign expression / increase / decrease, conditional or not, forall or not, equal-valued Int/Real "
     "constants, optional simulated effect. (a) all distinct permutations (<= 120); (b) 3 histories per case of <= 9 "
@@ -50,7 +52,7 @@ CONTAINERS = ["inst", "dur", "prob"]
 
 
 def plan(tier, seed):
-    return simple_plan(PROPERTY, tier, seed, N["quick"], N["thorough"], shards_quick=16)
+    return simple_plan(PROPERTY, tier, seed, N["quick"], N["thorough"], shards_quick=8)
 
 
 def run_shard(spec, res):
@@ -118,7 +120,7 @@ class Container:
             self.timings = [None]
         elif kind == "dur":
             self.obj = DurativeAction("act", OrderedDict([("p", T)]), env)
-            self.timings = [StartTiming(), EndTiming()]
+            self.timings = [StartTiming(), EndTiming(), StartTiming(1), EndTiming() - 1]
         else:
             self.obj = Problem("pb", env)
             for f in world.ctx.fluents.values():
@@ -126,6 +128,23 @@ class Container:
             self.obj.add_objects(list(world.ctx.objects.values()))
             self.timings = [GlobalStartTiming(5), GlobalStartTiming(7)]
         self.params = {p.name: p for p in getattr(self.obj, "parameters", [])}
+
+    def spell(self, t, how):
+        """The time point `t` (a canonical Timing of self.timings) in another legal spelling of the TimeExpression argument of
+        DurativeAction.add_effect / add_increase_effect / add_decrease_effect: "timepoint" = the bare Timepoint (delay-0 points
+        only), "fresh" = a newly built equal Timing with a Fraction delay and a new Timepoint object, "arith" = StartTiming() /
+        EndTiming() shifted with + / -.  Other containers (and set_simulated_effect, which takes a Timing) keep the Timing."""
+        from fractions import Fraction
+        from unified_planning.model.timing import Timing, Timepoint, StartTiming, EndTiming
+
+        if self.kind != "dur" or t is None or how in (None, "timing"):
+            return t
+        if how == "timepoint" and t.delay == 0:
+            return Timepoint(t.timepoint.kind)
+        if how == "arith":
+            base = StartTiming() if t.is_from_start() else EndTiming()
+            return base + t.delay if t.delay >= 0 else base - (-t.delay)
+        return Timing(Fraction(t.delay), Timepoint(t.timepoint.kind))
 
     def apply(self, op):
         """-> 'ok' | 'conflict' | 'other:<Exc>'"""
@@ -145,7 +164,7 @@ class Container:
             fl, val = c.expr(op["fluent"]), c.expr(op["value"])
             cond = c.expr(op["cond"]) if op.get("cond") is not None else True
             fa = tuple(c.var(n, ty) for n, ty in op.get("forall", []))
-            pre = () if t is None else (t,)
+            pre = () if t is None else (self.spell(t, op.get("spell")),)
             k = op["kind"]
             if k == "assign":
                 m = self.obj.add_timed_effect if self.kind == "prob" else self.obj.add_effect
@@ -250,6 +269,24 @@ def gen_sim(rng, hot, kind, t=0):
     return {"op": "sim", "fluents": fl, "t": t}
 
 
+SPELLINGS = ["timing", "timing", "timepoint", "timepoint", "fresh", "arith"]
+N_TIMINGS = {"inst": 1, "dur": 4, "prob": 2}
+
+
+def spell_ops(rng, kind, ops):
+    """Durative-action effects: the time argument of every effect gets its own spelling, so that one collection mixes
+    spellings of one time point; some effects move to the delayed time points start+1 / end-1 (other time points never
+    conflict with start / end)."""
+    if kind != "dur":
+        return
+    for op in ops:
+        if op["op"] != "eff":
+            continue
+        if rng.random() < 0.12:
+            op["t"] = rng.choice([2, 2, 3])
+        op["spell"] = rng.choice(SPELLINGS)
+
+
 def kind_of(op):
     if op["op"] == "sim":
         return "sim"
@@ -268,6 +305,8 @@ def run_case(key, tier, res):
     idx = int(key.rsplit(":", 1)[1])
     kind = CONTAINERS[idx % 3]
     hot, ops, sim = gen_ops(rng, kind)
+    srng = rng_for(key, "spelling")  # own stream: the collections themselves do not depend on the spellings drawn
+    spell_ops(srng, kind, ops)
     coll = ops + ([sim] if sim else [])
     env = _env.fresh_env()
     world = World(env)
@@ -332,6 +371,15 @@ def run_case(key, tier, res):
         return
     conflict = any_conf.pop()
     res.count("collections_with_conflict" if conflict else "collections_without_conflict")
+    if kind == "dur":
+        t0 = [o for o in coll if o["op"] == "eff" and o.get("t", 0) == 0]
+        if len({o.get("spell") for o in t0}) >= 2:
+            res.count("dur_collections_mixing_spellings_at_start")
+        if sim and any(o.get("spell") == "timepoint" and o["fluent"] in sim["fluents"] for o in t0):
+            res.count("dur_collections_sim_plus_timepoint_spelled_effect_on_its_fluent")
+        for o in coll:
+            if o["op"] == "eff":
+                res.count("dur_spelling:" + o["spell"])
     if len(verdicts) >= 2:
         res.count("collections_with_>=2_orders")
     if conflict:
@@ -339,6 +387,9 @@ def run_case(key, tier, res):
 
     # ---------- (b) exception safety by accepted-operations twin ---------------------------------------------------
     probes = make_probes(hot, kind)
+    spell_ops(srng, kind, probes)
+    for p in probes:
+        p["t"] = 0
     nontrivial = False
     for hi in range(3):
         hist = [coll[i] for i in rng.sample(range(len(coll)), len(coll))]
@@ -382,7 +433,7 @@ def make_probes(hot, kind):
 
 def conflicting_with(accepted, op, kind="dur"):
     """Human-readable reason why the accepted-only twin rejects `op` (for the mechanism string)."""
-    nt = 1 if kind == "inst" else 2
+    nt = N_TIMINGS[kind]
     t = min(op.get("t", 0), nt - 1)
     same_t = [a for a in accepted if min(a.get("t", 0), nt - 1) == t]
     sims = [a for a in same_t if a["op"] == "sim"]
@@ -559,6 +610,9 @@ def thresholds(m):
         ("nontrivial:dur", 10),
         ("nontrivial:prob", 10),
     ):
+        if c.get(k, 0) < n:
+            out.append(f"fewer than {n} observations of {k} ({c.get(k, 0)})")
+    for k, n in (("dur_collections_mixing_spellings_at_start", 60), ("dur_collections_sim_plus_timepoint_spelled_effect_on_its_fluent", 10), ("dur_spelling:timepoint", 50), ("dur_spelling:fresh", 20), ("dur_spelling:arith", 20)):
         if c.get(k, 0) < n:
             out.append(f"fewer than {n} observations of {k} ({c.get(k, 0)})")
     for k in ("rejection:assign-vs-assign", "rejection:assign-vs-incdec", "rejection:incdec-vs-assign", "rejection:assign-vs-simulated-effect", "rejection:incdec-vs-simulated-effect", "rejection:sim-vs-effects"):
